@@ -57,6 +57,33 @@ func quietSpaces(maxRoot int) []spaceSpec {
 	return out
 }
 
+// capacityConsumers: a memoized S0 that returns 2, 3 or 5 zero-width alternatives (lists whose capacity after Go's
+// append growth is 2, 4, 8: with and without a spare slot) requested two or three times at ONE position by consumers
+// that extend the list they were handed (Any appends its further alternatives to the first operand's list, Optional
+// appends the empty match) while an enclosing sequence is still iterating an earlier consumer's list. Size-bounded
+// spaces do not reach this (10+ nodes); what is handed out on a cache hit must be as independent as on the miss.
+func capacityConsumers() []string {
+	bodies := []string{
+		"(any (many a) (opt a))",
+		"(any (many a) (sepby a b) (opt a))",
+		"(any (many b) (many a) (sepby a b))",
+		"(any (many a) (sepby a b) (opt a) (many (seq a b)) (sepby b a))",
+	}
+	menu := []string{"S0", "(any S0 a)", "(any S0 b)", "(any S0 (seq a b))", "(any S0 (seq a a))", "(opt S0)", "(any a S0)", "(any (seq a b) S0)", "(choice S0 a)"}
+	var out []string
+	for _, body := range bodies {
+		for _, e1 := range menu {
+			for _, e2 := range menu {
+				out = append(out, fmt.Sprintf("S0!=%s; root=(seq %s %s)", body, e1, e2))
+				for _, e3 := range menu {
+					out = append(out, fmt.Sprintf("S0!=%s; root=(seq %s %s %s)", body, e1, e2, e3))
+				}
+			}
+		}
+	}
+	return out
+}
+
 var c03Seeds = []Case{
 	{Grammar: "S0!=(any (seq a S0) a); root=(any (seq S0 b) (seq S0 a))", Input: "aaab", Note: "right recursion through a shared memoized parser, two consumers"},
 	{Grammar: "S0!=(opt a); root=(seq S0 S0 (any S0 b))", Input: "aab", Note: "memoized nullable shared parser hit at several positions"},
@@ -164,9 +191,13 @@ func c03Grammar(res *explore.Result, g *gram.Grammar, inputs [][]byte, subsets b
 		b := impl.Build(gm, impl.Options{BurnBeforeLastShared: burn})
 		b.Mon.BudgetCalls, b.Mon.BudgetRes = budgetCalls, budgetResults
 		bad := false
-		for _, w := range inputs {
+		var history []string // inputs parsed before with these two grammar objects (state kept in a parser object is part of the case)
+		for wi, w := range inputs {
 			if bad && !verbose {
 				break
+			}
+			if wi > 0 {
+				history = append(history, string(inputs[wi-1]))
 			}
 			for s := 0; s <= len(w); s++ {
 				k := key{string(w), s}
@@ -187,7 +218,7 @@ func c03Grammar(res *explore.Result, g *gram.Grammar, inputs [][]byte, subsets b
 				res.Add("states", 1)
 				res.Add("transitions", b.Mon.Calls)
 				res.Add("traces", 1)
-				c := Case{Prior: b.MemoBefore, Grammar: gs, Input: string(w), Burn: burn}
+				c := Case{Prior: b.MemoBefore, Grammar: gs, Input: string(w), Burn: burn, History: append([]string{}, history...)}
 				where := fmt.Sprintf("%s, start %d", c, s)
 				if burn > 0 {
 					where += fmt.Sprintf(" [last shared parser built %d Memoize calls after the others]", burn)
@@ -282,6 +313,19 @@ func c03Run(env *explore.Env) *explore.Result {
 			}
 		}
 	}
+	for i, src := range capacityConsumers() {
+		if !env.Mine(int64(i)) {
+			continue
+		}
+		g, err := gram.Parse(src)
+		if err != nil {
+			res.Notes = append(res.Notes, "bad capacity-consumer grammar: "+err.Error())
+			continue
+		}
+		res.Add("grammars", 1)
+		res.Add("capacity_consumer_grammars", 1)
+		c03Grammar(res, g, gram.Inputs(ab, 3), false, false, 0)
+	}
 	for _, s := range specs {
 		inputs := gram.Inputs(s.alpha, s.maxLen)
 		s.sp.Each(func(idx int64, g *gram.Grammar) {
@@ -307,7 +351,11 @@ func c03Replay(raw json.RawMessage) *explore.Result {
 		return res
 	}
 	res.Notes = append(res.Notes, "case: "+c.String())
-	c03Grammar(res, g, [][]byte{[]byte(c.Input)}, false, true, c.Burn)
+	var inputs [][]byte
+	for _, h := range c.History {
+		inputs = append(inputs, []byte(h))
+	}
+	c03Grammar(res, g, append(inputs, []byte(c.Input)), false, true, c.Burn)
 	return res
 }
 
@@ -328,6 +376,7 @@ func init() {
 		Level: "model_checking",
 		Rule: "every left-recursion-free grammar of the stated spaces (root expression + shared sub-parsers referenced from several sites + inline Memoize marks) x every subset of shared sub-parsers memoized x every input x every start position; " +
 			"differential against the same grammar built without any Memoize: ordered results, returned error (position+text), position of Context.Error(); body executions per (memoized parser, position) <= 1; second run on a fresh context identical incl. CallCount; " +
+			"plus 3 240 capacity-consumer grammars (a memoized parser with 2/3/5 zero-width alternatives requested two or three times at one position by list-extending consumers inside a sequence); " +
 			"plus four two-parser grammars built with the second memoized parser's cache index 2^k (k = 8..17) away from the first; transition = one parser call; non-trivial = a case with at least one cache hit (a request answered without running the body)",
 		Assume: []string{"the un-memoized build of the same library is the reference (C01 ties it to the semantics)"},
 		Run:    c03Run,
